@@ -59,25 +59,31 @@ Record st := {
   tk : tok -> option tbeh;         (* deployed ERC20 contracts *)
   ebal : tok -> acct -> Z;         (* ERC20 balanceOf *)
   esup : tok -> Z;                 (* ERC20 totalSupply *)
-  next_tok : tok                   (* next contract id (CREATE addresses are fresh) *)
+  next_tok : tok;                  (* next contract id (CREATE addresses are fresh) *)
+  tfadmin : denom -> option acct   (* x/tokenfactory: admin of a factory denom (None: not a factory denom) *)
 }.
 
 Definition init : st :=
   {| reg := []; bank := fun _ _ => 0; supply := fun _ => 0; meta := fun _ => false;
-     tk := fun _ => None; ebal := fun _ _ => 0; esup := fun _ => 0; next_tok := 0%nat |}.
+     tk := fun _ => None; ebal := fun _ _ => 0; esup := fun _ => 0; next_tok := 0%nat;
+     tfadmin := fun _ => None |}.
 
 Definition set_reg (s : st) (r : list mapping) : st :=
-  {| reg := r; bank := bank s; supply := supply s; meta := meta s; tk := tk s; ebal := ebal s; esup := esup s; next_tok := next_tok s |}.
+  {| reg := r; bank := bank s; supply := supply s; meta := meta s; tk := tk s; ebal := ebal s; esup := esup s; next_tok := next_tok s; tfadmin := tfadmin s |}.
 Definition set_bank (s : st) (b : acct -> denom -> Z) : st :=
-  {| reg := reg s; bank := b; supply := supply s; meta := meta s; tk := tk s; ebal := ebal s; esup := esup s; next_tok := next_tok s |}.
+  {| reg := reg s; bank := b; supply := supply s; meta := meta s; tk := tk s; ebal := ebal s; esup := esup s; next_tok := next_tok s; tfadmin := tfadmin s |}.
 Definition set_supply (s : st) (f : denom -> Z) : st :=
-  {| reg := reg s; bank := bank s; supply := f; meta := meta s; tk := tk s; ebal := ebal s; esup := esup s; next_tok := next_tok s |}.
+  {| reg := reg s; bank := bank s; supply := f; meta := meta s; tk := tk s; ebal := ebal s; esup := esup s; next_tok := next_tok s; tfadmin := tfadmin s |}.
 Definition set_meta (s : st) (f : denom -> bool) : st :=
-  {| reg := reg s; bank := bank s; supply := supply s; meta := f; tk := tk s; ebal := ebal s; esup := esup s; next_tok := next_tok s |}.
+  {| reg := reg s; bank := bank s; supply := supply s; meta := f; tk := tk s; ebal := ebal s; esup := esup s; next_tok := next_tok s; tfadmin := tfadmin s |}.
 Definition set_ebal (s : st) (f : tok -> acct -> Z) : st :=
-  {| reg := reg s; bank := bank s; supply := supply s; meta := meta s; tk := tk s; ebal := f; esup := esup s; next_tok := next_tok s |}.
+  {| reg := reg s; bank := bank s; supply := supply s; meta := meta s; tk := tk s; ebal := f; esup := esup s; next_tok := next_tok s; tfadmin := tfadmin s |}.
 Definition set_esup (s : st) (f : tok -> Z) : st :=
-  {| reg := reg s; bank := bank s; supply := supply s; meta := meta s; tk := tk s; ebal := ebal s; esup := f; next_tok := next_tok s |}.
+  {| reg := reg s; bank := bank s; supply := supply s; meta := meta s; tk := tk s; ebal := ebal s; esup := f; next_tok := next_tok s; tfadmin := tfadmin s |}.
+
+Definition set_tfadmin (s : st) (f : denom -> option acct) : st :=
+  {| reg := reg s; bank := bank s; supply := supply s; meta := meta s; tk := tk s; ebal := ebal s; esup := esup s;
+     next_tok := next_tok s; tfadmin := f |}.
 
 Definition updB (f : acct -> denom -> Z) (a : acct) (d : denom) (v : Z) : acct -> denom -> Z :=
   fun a' d' => if Nat.eqb a' a && denom_eqb d' d then v else f a' d'.
@@ -146,7 +152,7 @@ Definition new_token (s : st) (b : tbeh) (owner : acct) (x : Z) : st :=
      tk := updT (tk s) t (Some b);
      ebal := fun t' a' => if Nat.eqb t' t then (if Nat.eqb a' owner then x else 0) else ebal s t' a';
      esup := updT (esup s) t x;
-     next_tok := S t |}.
+     next_tok := S t; tfadmin := tfadmin s |}.
 
 (** * Registry *)
 Definition find_den (s : st) (d : denom) : option mapping := find (fun m => denom_eqb (m_den m) d) (reg s).
@@ -177,6 +183,11 @@ Inductive op :=
 | BankMsgSend (caller to : acct) (d : denom) (x : Z)
 | Erc20Transfer (caller : acct) (t : tok) (to : acct) (x : Z)
 | Erc20Burn (caller : acct) (t : tok) (x : Z)
+(* x/tokenfactory: the admin of a factory denom mints to / burns from ANY account the bank does not block *)
+| TfCreate (creator : acct) (d : denom)
+| TfMint (sender : acct) (d : denom) (x : Z) (to : acct)
+| TfBurn (sender : acct) (d : denom) (x : Z) (from : acct)
+| TfChangeAdmin (sender : acct) (d : denom) (new : acct)
 | Framed (f : frame) (o : op)
 | Seq (o1 o2 : op).                              (* two operations in ONE transaction: both or nothing *)
 
@@ -237,6 +248,9 @@ Definition create_erc20_core (s : st) (t : tok) : option st :=
   let s1 := set_meta s (updD (meta s) (DErc t) true) in
   Some (set_reg s1 (reg s1 ++ [{| m_tok := t; m_den := DErc t; m_coin := false |}])).
 
+Definition is_admin (s : st) (d : denom) (a : acct) : bool :=
+  match tfadmin s d with Some b => Nat.eqb a b | None => false end.
+
 (** one unframed operation; [None] = rejected (nothing changes: the tx / the precompile call is rolled back) *)
 Definition exec (s : st) (o : op) : option st :=
   match o with
@@ -290,6 +304,30 @@ Definition exec (s : st) (o : op) : option st :=
       | None => Some s
       | Some b => _ <- guard (tb_burn b) ;; erc_burn s t caller x
       end
+  | TfCreate creator d =>
+      match d with
+      | DCoin _ =>
+          _ <- guard (negb (Nat.eqb creator Module) && negb (is_some (tfadmin s d))) ;;
+          Some (set_tfadmin (set_meta s (updD (meta s) d true)) (updD (tfadmin s) d (Some creator)))
+      | DErc _ => None
+      end
+  | TfMint sender d x to =>
+      match d with
+      | DCoin _ =>
+          _ <- guard (is_admin s d sender && (0 <? x) && negb (blocked to)) ;;
+          bank_mint s to d x
+      | DErc _ => None
+      end
+  | TfBurn sender d x from =>
+      match d with
+      | DCoin _ =>
+          _ <- guard (is_admin s d sender && (0 <? x) && negb (blocked from)) ;;
+          bank_burn s from d x
+      | DErc _ => None
+      end
+  | TfChangeAdmin sender d new =>
+      _ <- guard (is_admin s d sender) ;;
+      Some (set_tfadmin s (updD (tfadmin s) d (Some new)))
   | Framed _ _ => None
   | Seq _ _ => None
   end.
